@@ -118,8 +118,8 @@ Fixpoint first_index (fs : fsys) (req : bytes) (pages : list bytes) : option (by
               end
   end.
 
-(* the precompressed-sibling loop over staticEncodingPriority: a sibling that is on the hide list
-   is passed over *)
+(* the precompressed-sibling loop over staticEncodingPriority: a directory of that name and a
+   sibling that is on the hide list are passed over *)
 Fixpoint first_sibling (fs : fsys) (hide : list bytes) (req ae : bytes) (encs : list (bytes * bytes))
   : option (node * bytes) :=
   match encs with
@@ -127,7 +127,7 @@ Fixpoint first_sibling (fs : fsys) (hide : list bytes) (req ae : bytes) (encs : 
   | (name, ext) :: r =>
       if accepts ae name then
         match fs_open fs (req ++ ext) with
-        | Some n => if is_hidden fs hide n then first_sibling fs hide req ae r else Some (n, name)
+        | Some n => if n_dir n || is_hidden fs hide n then first_sibling fs hide req ae r else Some (n, name)
         | None => first_sibling fs hide req ae r
         end
       else first_sibling fs hide req ae r
